@@ -21,7 +21,7 @@ INVARIANTS
   CanonicalIsPermitted
   ReverseIsExactReverse
   OpenCasesOnly
+  MatrixFormAgrees
   NatTransitive
-  ArgTransitive
-  LocationAlwaysTransitive
+  ArgTransitiveCore
 CHECK_DEADLOCK FALSE
